@@ -16,6 +16,7 @@ def items(tier):
     out += seq.family_S(tier)
     out += seq.family_F(tier)
     out += seq.family_A(tier)
+    out += seq.family_O(tier)
     return [(i,) + it for i, it in enumerate(out)]
 
 
@@ -65,6 +66,11 @@ def run_item(item, tier):
         _run_prog(st, src, argvs, [2, 3, 4, 8], f'F[{payload}]')
         if tier == 'thorough':
             _run_prog(st, src, argvs, [2, 4], f'F[{payload}]/bigstack', S=4 * hid.GEN_STACK)
+    elif fam == 'O':
+        for order in payload:
+            st.add('cases', 1)
+            _run_prog(st, seq.build_O(order), seq.O_ARGVS, [2, (3, 4, 8)[idx % 3]] if len(order) > 2 else [2], f'O{list(order)}')
+        st.sample({'family': 'O', 'call_order': [seq.O_FUNCS[i][0].split('(')[0] for i in payload[0]]})
     elif fam == 'A':
         for sig in payload:
             src = seq.build_A(sig)
@@ -105,6 +111,9 @@ def coverage(total, tier):
         'F': f'{len(seq.F_PROGRAMS)} function-protocol programs (overloads, recursion, returns, RC/R/RW arrays, globals) at W in 2,3,4,8',
         'A': 'every @is_you signature with <=3 parameters over 8 types with <=1 array '
              + ('' if tier == 'thorough' else '(3-parameter signatures: every 7th) ') + 'x boundary argument vectors',
+        'O': f'{len(seq.O_FUNCS)} functions with different frame shapes (parameter shadowing a global, byte/bool/string globals, literal and dynamic arrays, '
+             'recursion, const-view/mutable/literal array arguments) called -- hence generated -- in every order of '
+             + ('every 7th permutation of every 6-subset' if tier == 'thorough' else 'every 10th 4-subset') + ' plus all ordered pairs; the first two are called again at the end',
         'word_sizes': 'thorough: 2,3,4,8 for everything; quick: 2 plus one of 3,4,8 rotating per batch',
     }
     return cov
